@@ -503,9 +503,10 @@ def _native_args(k, kinds, model, absent):
     return {"text": text, "reads": [[kd, rt[j]] for j, kd in enumerate(kinds)]}
 
 
-def sequence_obligations(types, tier):
+def sequence_obligations(types, tier, K=None, Mx=None, only=None):
     out = []
-    K, Mx = (2, 3) if tier == "quick" else (3, 4)
+    K0, Mx0 = (2, 3) if tier == "quick" else (3, 4)
+    K, Mx = K or K0, Mx or Mx0
     groups = {}
     bodies = set()
     abnormal = []
@@ -539,6 +540,8 @@ def sequence_obligations(types, tier):
     extra = {"models": MODEL_DOC, "read_sequences": n_runs}
     reach_q = [z3.Or(*reach_all[:200])] if reach_all else [z3.BoolVal(False)]
     for why, desc in DESC.items():
+        if only and why not in only:
+            continue
         vs = sorted(groups.get(why, []), key=lambda x: (len(x[3]), x[2]))
         q = z3.Or(*[c for c, *_ in vs[:60]]) if vs else z3.BoolVal(False)
         r = R.decide(f"sequence:{why}", "state-machine", q, reach_q, bodies=sorted(bodies), bounds=bounds, desc=desc, extra=extra, keydetail=why)
